@@ -434,7 +434,8 @@ Definition f_nbs_parallel_nbs_bct : cmd :=
   (Choice (Choice (Choice (Seq (Loop (Choice (Call "nbs_parallel.ttest_paired_stat_only" ENone)
             (Call "nbs_parallel.ttest2_stat_only" ENone)))
         (Choice (Seq (Call "algorithms.clustering.get_components" ENone)
-            (Choice (Seq (Loop DrawNpGlobal)
+            (Choice (Seq (Seq DrawNpGlobal
+                  DrawNpGlobal)
                 (Call "nbs_parallel._permutation" EOther))
               Skip))
           Skip))
